@@ -273,6 +273,16 @@ func init() {
 					return s2
 				}
 				two, twoR := mkTwo(false), mkTwo(true)
+				// ONE rule object used by two properties of a schema and then by a second schema: every use sees the same list
+				shared := enum.New("@E", text)
+				mkShared := func() *jschema.Schema {
+					s3 := jschema.New("shared", "{\n  \"a\": "+ex+", // {enum: @E}\n  \"b\": "+ex+" // {enum: @E, optional: true}\n}")
+					if err := s3.AddRule("@E", shared); err != nil {
+						bad("enum", text, "AddRule (shared rule object): "+err.Error(), "")
+					}
+					return s3
+				}
+				sh1, sh2 := mkShared(), mkShared()
 				inline := jschema.New("inline", ex+" // {enum: "+enumText(c.Items, 0)+"}")
 				// the list as the rule writes it (line breaks, // comments), inside a multi-line annotation: the same list
 				var inlineML *jschema.Schema
@@ -285,6 +295,13 @@ func init() {
 					b := guard(func() error { return inline.Validate(jdoc.New("d", d)) })
 					atomic.AddInt64(&evals, 2)
 					if want != 2 {
+						for _, s3 := range []*jschema.Schema{sh1, sh2, sh1} {
+							atomic.AddInt64(&evals, 1)
+							if g := guard(func() error { return s3.Validate(jdoc.New("d", "{\"a\": "+ex+", \"b\": "+d+"}")) }); g.OK != (want == 1) {
+								bad("enum", text, fmt.Sprintf("one rule object used several times: property b with %s: accepted=%v, membership says %v (%d %s)", d, g.OK, want == 1, g.Code, g.Msg), d)
+								break
+							}
+						}
 						for _, s2 := range []*jschema.Schema{two, twoR} {
 							atomic.AddInt64(&evals, 2)
 							if g := guard(func() error { return s2.Validate(jdoc.New("d", "{\"a\": "+d+", \"b\": \"zz\"}")) }); g.OK != (want == 1) {
